@@ -54,19 +54,233 @@ def cases(tier, seed, shard, nshards):
                     idx += 1
                     if idx % nshards == shard:
                         yield {"kind": "apply", "n": n, "npos": npos, "susp": susp, "fail": fail}
-    shapes = ["plain", "coro", "awaitable", "raise"]
+    shapes = ["plain", "coro", "awaitable", "raise", "coro_raise", "awaitable_raise"]
+    excs = list(EXC)
     for n in (1, 2, 3):
         for seq in itertools.product(shapes, repeat=n):
             for wrap in ("function", "partial", "callobj", "lambda"):
                 idx += 1
                 if idx % nshards == shard:
-                    yield {"kind": "sync_seq", "seq": list(seq), "wrap": wrap, "susp": idx % 2}
+                    # the exception type rotates over the sequences; sequences that raise get every type
+                    raising = any("raise" in x for x in seq)
+                    for exc in (excs if raising and n < 3 else [excs[idx % len(excs)]]):
+                        yield {"kind": "sync_seq", "seq": list(seq), "wrap": wrap, "susp": idx % 2, "exc": exc}
     for flav in ("def", "async_def", "partial", "callobj", "lambda_awaitable", "def_raises", "async_raises",
-                 "callobj_plain", "notcallable", "awaitable_value"):
+                 "callobj_plain", "notcallable", "awaitable_value", "lambda_awaitable_raises", "callobj_raises",
+                 "awaitable_value_raises", "partial_raises"):
         for susp in (0, 1):
-            idx += 1
-            if idx % nshards == shard:
-                yield {"kind": "sync", "flav": flav, "susp": susp}
+            for exc in (excs if flav.endswith("raises") else ["KeyError"]):
+                idx += 1
+                if idx % nshards == shard:
+                    yield {"kind": "sync", "flav": flav, "susp": susp, "exc": exc}
+    # faults: the failing awaitable / iteration step / outer awaitable surfaces as that very exception, after
+    # exactly the items before it, and nothing later is awaited
+    for n in range(1, 5):
+        for at in range(n):
+            for where in ("item", "source", "outer"):
+                for cont in ("list", "iterator", "aiter"):
+                    if where == "source" and cont == "list":
+                        continue
+                    for item_aw in (False, True, "awaitobj"):
+                        if where == "item" and not item_aw:
+                            continue
+                        for outer_aw in (False, True, "awaitobj", "future_like"):
+                            if where == "outer" and (not outer_aw or at):
+                                continue
+                            for susp in (0, 1):
+                                idx += 1
+                                if idx % nshards == shard:
+                                    yield {"kind": "any_iter_fault", "n": n, "at": at, "where": where, "cont": cont,
+                                           "item_aw": item_aw, "outer_aw": outer_aw, "susp": susp,
+                                           "exc": GEN_EXC[idx % len(GEN_EXC)]}
+            for cont in ("list", "iterator"):
+                for susp in (0, 1, 2):
+                    for exc in GEN_EXC:
+                        idx += 1
+                        if idx % nshards == shard:
+                            yield {"kind": "await_each_fault", "n": n, "at": at, "cont": cont, "susp": susp, "exc": exc}
+    for n in range(0, 4):
+        for npos in range(0, n + 1):
+            for exc in excs:
+                for fail in tuple(range(n)) + ("func",):
+                    idx += 1
+                    if idx % nshards == shard:
+                        yield {"kind": "apply", "n": n, "npos": npos, "susp": idx % 2, "fail": fail, "exc": exc}
+
+
+class CancelLike(BaseException):
+    """What an event loop throws to cancel: not an Exception."""
+
+
+EXC = {"KeyError": KeyError, "TypeError": TypeError, "AttributeError": AttributeError, "ValueError": ValueError,
+       "RuntimeError": RuntimeError, "LookupError": LookupError, "AssertionError": AssertionError,
+       "CancelLike": CancelLike, "StopAsyncIteration": StopAsyncIteration}
+# inside an async generator (any_iter, await_each) the interpreter itself turns Stop(Async)Iteration into RuntimeError
+GEN_EXC = [k for k in EXC if k != "StopAsyncIteration"]
+
+
+def run_any_iter_fault(case, stats):
+    CTX.reset()
+    n, at, where = case["n"], case["at"], case["where"]
+    exc = EXC[case["exc"]]("injected")
+    items = [Item(i, ("x", i)) for i in range(n)]
+    awaited = []
+
+    async def aw(i, item):
+        awaited.append(i)
+        if case["susp"]:
+            await Suspend(("item", i), 1)
+        if where == "item" and i == at:
+            raise exc
+        return item
+
+    class AwaitObj:
+        def __init__(self, i, item):
+            self.i, self.item = i, item
+
+        def __await__(self):
+            return aw(self.i, self.item).__await__()
+
+    made = []
+
+    def cell(i, item):
+        kind = case["item_aw"]
+        if kind == "awaitobj":
+            return AwaitObj(i, item)
+        if kind:
+            c = aw(i, item)
+            made.append(c)
+            return c
+        return item
+
+    def sync_gen():
+        for i, it in enumerate(items):
+            if where == "source" and i == at:
+                raise exc
+            yield cell(i, it)
+
+    async def agen():
+        for i, it in enumerate(items):
+            if case["susp"]:
+                await Suspend(("source", i), 1)
+            if where == "source" and i == at:
+                raise exc
+            yield cell(i, it)
+
+    cont = [cell(i, it) for i, it in enumerate(items)] if case["cont"] == "list" else sync_gen() if case["cont"] == "iterator" else agen()
+    if case["outer_aw"]:
+        async def outer():
+            if case["susp"]:
+                await Suspend("outer", 1)
+            if where == "outer":
+                raise exc
+            return cont
+
+        class OuterAwaitable:
+            def __await__(self):
+                return outer().__await__()
+
+        class FutureLike(OuterAwaitable):
+            __iter__ = OuterAwaitable.__await__
+
+        arg = {True: outer, "awaitobj": OuterAwaitable, "future_like": FutureLike}[case["outer_aw"]]()
+    else:
+        arg = cont
+    got = []
+    end = {}
+
+    async def main():
+        it = A.any_iter(arg)
+        try:
+            for _ in range(n + 2):
+                got.append(await it.__anext__())
+        except BaseException as e:  # noqa: BLE001
+            end["exc"] = e
+        before = list(awaited)
+        try:
+            await it.__anext__()
+            end["after"] = "yielded"
+        except StopAsyncIteration:
+            end["after"] = "stop"
+        except BaseException as e:  # noqa: BLE001
+            end["after"] = f"raised {type(e).__name__}"
+        end["awaited_after_failure"] = awaited[len(before):]
+        await it.aclose()
+
+    drive(main())
+    want = [] if where == "outer" else items[:at]
+    viols = []
+    head = f"any_iter {case}"
+    if len(got) != len(want) or any(a is not b for a, b in zip(got, want)):
+        viols.append({"key": "any_iter/items-before-failure", "msg": f"{head}: got {[canon(x) for x in got]}, wanted the {len(want)} items before the failure"})
+    if end.get("exc") is not exc:
+        viols.append({"key": "any_iter/exception", "msg": f"{head}: the injected exception surfaced as {end.get('exc')!r}"})
+    if end.get("after") != "stop" or end.get("awaited_after_failure"):
+        viols.append({"key": "any_iter/continues-after-failure", "msg": f"{head}: after the failure: {end}"})
+    if case["item_aw"] and where != "outer":
+        exp = list(range(at + 1)) if where == "item" else list(range(at))
+        if awaited != exp:
+            viols.append({"key": "any_iter/await-order", "msg": f"{head}: item awaitables awaited {awaited}, expected {exp}"})
+    for c in made:
+        c.close()
+    if case["outer_aw"] is True and getattr(arg, "cr_frame", None) is not None:
+        arg.close()
+    if CTX.foreign:
+        viols.append({"key": "any_iter/foreign-suspension", "msg": CTX.foreign[0]})
+    stats["any_iter_fault_runs"] += 1
+    return {"violations": viols, "nontrivial": True, "sig": tuple(sorted(case.items(), key=str))}
+
+
+def run_await_each_fault(case, stats):
+    CTX.reset()
+    n, at = case["n"], case["at"]
+    exc = EXC[case["exc"]]("injected")
+    items = [Item(i, ("y", i)) for i in range(n)]
+    events = []
+
+    async def aw(i):
+        events.append(("await", i))
+        if case["susp"]:
+            await Suspend(("aw", i), case["susp"])
+        if i == at:
+            raise exc
+        return items[i]
+
+    coros = [aw(i) for i in range(n)]
+    arg = coros if case["cont"] == "list" else iter(coros)
+    got, end = [], {}
+
+    async def main():
+        it = A.await_each(arg)
+        try:
+            for _ in range(n + 2):
+                got.append(await it.__anext__())
+        except BaseException as e:  # noqa: BLE001
+            end["exc"] = e
+        try:
+            await it.__anext__()
+            end["after"] = "yielded"
+        except StopAsyncIteration:
+            end["after"] = "stop"
+        except BaseException as e:  # noqa: BLE001
+            end["after"] = f"raised {type(e).__name__}"
+        await it.aclose()
+
+    drive(main())
+    viols = []
+    head = f"await_each {case}"
+    if len(got) != at or any(a is not b for a, b in zip(got, items)):
+        viols.append({"key": "await_each/items-before-failure", "msg": f"{head}: got {[canon(x) for x in got]}"})
+    if end.get("exc") is not exc:
+        viols.append({"key": "await_each/exception", "msg": f"{head}: the injected exception surfaced as {end.get('exc')!r}"})
+    if events != [("await", i) for i in range(at + 1)] or end.get("after") != "stop":
+        viols.append({"key": "await_each/continues-after-failure", "msg": f"{head}: awaited {events}, then {end.get('after')}"})
+    for c in coros:
+        c.close()
+    if CTX.foreign:
+        viols.append({"key": "await_each/foreign-suspension", "msg": CTX.foreign[0]})
+    stats["await_each_fault_runs"] += 1
+    return {"violations": viols, "nontrivial": True, "sig": tuple(sorted(case.items(), key=str))}
 
 
 def run_any_iter(case, stats):
@@ -224,7 +438,7 @@ def run_apply(case, stats):
     n, npos = case["n"], case["npos"]
     order = []
     vals = [Item(i, ("a", i)) for i in range(n)]
-    boom = LookupError("arg failed")
+    boom = EXC[case.get("exc", "LookupError")]("arg failed")
 
     async def aw(i):
         order.append(i)
@@ -241,6 +455,8 @@ def run_apply(case, stats):
 
     def func(*args, **kwargs):
         seen["args"], seen["kwargs"] = args, kwargs
+        if case["fail"] == "func":
+            raise boom
         return ("result", args, tuple(sorted(kwargs.items())))
 
     try:
@@ -258,6 +474,9 @@ def run_apply(case, stats):
             viols.append({"key": "apply/result", "msg": f"apply {case}: got {res}, func saw {seen}"[:500]})
         if order != list(range(n)):
             viols.append({"key": "apply/await-order", "msg": f"apply {case}: awaited {order}"})
+    elif case["fail"] == "func":
+        if res[0] != "raise" or res[1] is not boom or not seen or order != list(range(n)):
+            viols.append({"key": "apply/function-error", "msg": f"apply {case}: failing function gave {res}, awaited {order}"})
     else:
         if res[0] != "raise" or res[1] is not boom or seen:
             viols.append({"key": "apply/argument-error", "msg": f"apply {case}: failing argument gave {res}, func called: {bool(seen)}"})
@@ -275,7 +494,7 @@ def run_sync(case, stats):
     CTX.reset()
     flav, susp = case["flav"], case["susp"]
     result = Item(1, "res")
-    boom = KeyError("boom")
+    boom = EXC[case.get("exc", "KeyError")]("boom")
     calls = []
 
     def d(a, b=2):
@@ -306,14 +525,26 @@ def run_sync(case, stats):
             return result
 
     class AwaitableValue:
+        def __init__(self, fail=False):
+            self.fail = fail
+
         def __await__(self):
             if susp:
                 yield from Suspend("awaitable", 1).__await__()
+            if self.fail:
+                raise boom
             return result
+
+    class CallRaises:
+        def __call__(self, a, b=2):
+            return araise(a, b)
 
     fn = {"def": d, "async_def": ad, "partial": functools.partial(ad, 1), "callobj": CallObj(),
           "lambda_awaitable": (lambda a, b=2: ad(a, b)), "def_raises": draise, "async_raises": araise,
-          "callobj_plain": CallPlain(), "notcallable": 5, "awaitable_value": (lambda a, b=2: AwaitableValue())}[flav]
+          "callobj_plain": CallPlain(), "notcallable": 5, "awaitable_value": (lambda a, b=2: AwaitableValue()),
+          "lambda_awaitable_raises": (lambda a, b=2: araise(a, b)), "callobj_raises": CallRaises(),
+          "awaitable_value_raises": (lambda a, b=2: AwaitableValue(True)),
+          "partial_raises": functools.partial(araise, 1)}[flav]
     viols = []
     try:
         wrapped = A.sync(fn)
@@ -327,7 +558,7 @@ def run_sync(case, stats):
         return {"violations": viols, "nontrivial": True, "sig": (flav, susp)}
     if flav in ("async_def", "async_raises") and wrapped is not fn:
         viols.append({"key": "sync/coroutine-function-not-returned-unchanged", "msg": f"sync({flav}) is not the function itself"})
-    args = (7,) if flav != "partial" else ()
+    args = (7,) if not flav.startswith("partial") else ()
     try:
         aw = wrapped(*args, b=3)
         import inspect
@@ -338,7 +569,7 @@ def run_sync(case, stats):
             res = ("ok", drive(_await(aw)))
     except BaseException as exc:  # noqa: BLE001
         res = ("raise", exc)
-    if flav in ("def_raises", "async_raises"):
+    if flav.endswith("raises"):
         if res[0] != "raise" or res[1] is not boom:
             viols.append({"key": "sync/exception", "msg": f"sync({flav}): {res}"})
     else:
@@ -362,21 +593,25 @@ def run_sync_seq(case, stats):
     CTX.reset()
     seq, susp = case["seq"], case["susp"]
     state = {"i": 0}
-    boom = [KeyError(f"boom{i}") for i in range(len(seq))]
+    boom = [EXC[case.get("exc", "KeyError")](f"boom{i}") for i in range(len(seq))]
     results = [Item(i, ("res", i)) for i in range(len(seq))]
 
     class Aw:
-        def __init__(self, value):
-            self.value = value
+        def __init__(self, value, fail=None):
+            self.value, self.fail = value, fail
 
         def __await__(self):
             if susp:
                 yield from Suspend("awaitable", 1).__await__()
+            if self.fail is not None:
+                raise self.fail
             return self.value
 
-    async def coro(value):
+    async def coro(value, fail=None):
         if susp:
             await Suspend("coro", 1)
+        if fail is not None:
+            raise fail
         return value
 
     def fn(*args, **kwargs):
@@ -389,6 +624,10 @@ def run_sync_seq(case, stats):
             return coro(results[i])
         if shape == "awaitable":
             return Aw(results[i])
+        if shape == "coro_raise":
+            return coro(None, boom[i])
+        if shape == "awaitable_raise":
+            return Aw(None, boom[i])
         raise boom[i]
 
     class CallObj:
@@ -403,7 +642,7 @@ def run_sync_seq(case, stats):
             res = ("ok", drive(_await(wrapped(i))))
         except BaseException as exc:  # noqa: BLE001
             res = ("raise", exc)
-        if shape == "raise":
+        if "raise" in shape:
             ok = res[0] == "raise" and res[1] is boom[i]
         else:
             ok = res[0] == "ok" and res[1] is results[i]
@@ -419,11 +658,13 @@ def run_sync_seq(case, stats):
 
 def run_case(case, stats: Counter):
     return {"any_iter": run_any_iter, "await_each": run_await_each, "apply": run_apply, "sync": run_sync,
-            "sync_seq": run_sync_seq}[case["kind"]](case, stats)
+            "sync_seq": run_sync_seq, "any_iter_fault": run_any_iter_fault,
+            "await_each_fault": run_await_each_fault}[case["kind"]](case, stats)
 
 
 def finish(stats, tier):
-    for need in ("any_iter_runs", "await_each_runs", "apply_runs", "sync_runs", "sync_sequence_runs"):
+    for need in ("any_iter_runs", "await_each_runs", "apply_runs", "sync_runs", "sync_sequence_runs", "any_iter_fault_runs",
+                 "await_each_fault_runs"):
         if not stats.get(need):
             return f"deciding counter {need} is zero"
     return None
